@@ -872,7 +872,13 @@ def oracle_unbounded(ctx, unb, produced, edge, rects, utriples):
                                ('union', union(den(a), den(b), den(c)), lambda: (a ** b) ** c, lambda: a ** (b ** c))):
             gl, gr = raw(l), raw(r)
             if gl != gr and nm == 'union':
-                soft_violation(ctx, FID, dict(case, call='union-assoc'), "** is not associative", impl=repr([gl, gr]))
+                # proved exact when no bounded axis of an operand reaches the last column / row
+                if all(unb_axis(o, 0) or den(o)[2] < MAX_COL for o in (a, b, c)) and \
+                        all(unb_axis(o, 1) or den(o)[3] < MAX_ROW for o in (a, b, c)):
+                    ctx.violation(dict(case, call='union-assoc', cls='unbounded-union'),
+                                  "** is not associative (away from the sheet's last column / row)", impl=repr([gl, gr]))
+                else:
+                    soft_violation(ctx, FID, dict(case, call='union-assoc'), "** is not associative", impl=repr([gl, gr]))
             if not same_cells(gl, want) or not same_cells(gr, want):
                 if nm == 'union':
                     ctx.violation(dict(case, call='union3', cls='unbounded-union'),
